@@ -181,6 +181,21 @@ func c11Scenarios(tier string) []Scenario {
 			}
 		}
 	}
+	// the boundary configuration: zero tries - the budget T x (2^0 - 1) is zero, the call fails at once with the
+	// no-response error whatever arrives, and its id is free again
+	for _, v6 := range []bool{false, true} {
+		for _, T := range []int64{1, 2} {
+			for _, dgs := range [][]DgSpec{nil, {{At: 0, Kind: DgGood}}, {{At: 1, Kind: DgGood}}, {{At: 0, Kind: DgBad}, {At: 1, Kind: DgGood}}} {
+				for _, closeAt := range []int64{-1, 0, 1} {
+					for _, cancelAt := range []int64{-1, 0} {
+						add(&ClientScenario{V6: v6, T: T, Tries: 0, BufCap: 1, CloseAt: closeAt, Bound: 1, Horizon: 64 * T,
+							Calls: []CallSpec{{ID: 0, Match: MatchGood, CancelAt: cancelAt, After: -1}, {ID: 0, Match: MatchGood, CancelAt: -1, After: 0}},
+							Dgs:   append([]DgSpec{}, dgs...)}, "zero-tries")
+					}
+				}
+			}
+		}
+	}
 	return out
 }
 
